@@ -14,8 +14,18 @@ From IT Require Export model.Types model.Clean gen.Consts.
 
 (* ---------- UnpackRule ---------- *)
 
-(* strings.ToLower, ASCII part only (see ASSUMPTIONS of checks/c03.py) *)
-Definition to_lower (s : str) : str := map to_lower_ascii s.
+(* strings.ToLower as far as equality with ASCII words is concerned (all that UnpackRule
+   observes of it): A-Z -> a-z, and the only two non-ASCII characters whose lower case is an
+   ASCII letter, U+0130 (bytes C4 B0) -> 'i' and U+212A KELVIN SIGN (E2 84 AA) -> 'k'; every
+   other byte is kept (any other non-ASCII character keeps the result non-ASCII in Go too).
+   See ASSUMPTIONS of checks/c03.py. *)
+Fixpoint to_lower (s : str) : str :=
+  match s with
+  | 196 :: 176 :: r => 105 :: to_lower r
+  | 226 :: 132 :: 170 :: r => 107 :: to_lower r
+  | c :: r => to_lower_ascii c :: to_lower r
+  | [] => []
+  end.
 
 (* keyword tables regenerated from the Go source (gen/Consts.v):
    t_rule_keywords = case labels of UnpackRule's switch, in source order;
